@@ -25,6 +25,9 @@ boolean / string / numeric expressions on which the C16 theorems turn and which 
     k_egmap_optional_read             when from_egmap reads an optional column: over `'<name>' in df.columns` and `df['<name>'].notna().any()`
   from_pandas of both map classes, DenseCoancestryMatrix, DenseBreedingValueMatrix
     k_col_select          one row per `df[A] if isinstance(B, str) else df.iloc[:, C]` / `get_loc(A) if isinstance(B, str) else C`
+  every to_hdf5 of the 12 persistable classes
+    k_h5_open_mode        one row per class: the <mode> of `h5file = h5py.File(filename, <mode>)` as a function of `overwrite`; the five
+                          statements that touch h5file are matched exactly (a handle is used as it is)
   DenseTwoWayDHAdditiveGeneticVarianceMatrix
     k_vm_taxazfill, k_vm_traitzfill   ceil(log10(n)) + 1
     k_vm_columns          to_pandas: output column -> (label array, axis of flattenix(self.mat) that indexes it), in column order
@@ -527,6 +530,72 @@ def vm_kernels(repo, defs):
         if src(P.the_assignment(fn, nm)) != w: raise U("%s.from_pandas: %s" % (cls, nm))
 
 
+# ------------------------------------------------------------------------------------------------ how to_hdf5 opens a file given by name
+def open_kernels(classes, defs):
+    """every to_hdf5 (resolved along the MRO as c16_fields does): the statements that mention `h5file` are exactly
+         h5file = None
+         if isinstance(filename, (str, Path)): h5file = h5py.File(filename, <mode>)
+         elif isinstance(filename, h5py.File): ...; h5file = filename
+         h5py_File_write_dict(h5file, groupname, data, overwrite)
+         if isinstance(filename, (str, Path)): h5file.close()
+       -> one row per class: (harness key, fun overwrite => <mode>).  <mode> is a str constant or a conditional expression over
+       `overwrite` whose branches are str constants; anything else (another statement touching h5file, a second h5py.File call, a
+       computed mode) is refused."""
+    from translate import c16_fields as CF
+    rows = []; texts = []
+    def mode_term(e, where):
+        if isinstance(e, ast.Constant) and isinstance(e.value, str):
+            if '"' in e.value: raise U("%s: mode %r" % (where, e.value))
+            return '"%s"%%string' % e.value
+        if isinstance(e, ast.IfExp):
+            t = e.test
+            if isinstance(t, ast.Name) and t.id == "overwrite": c = "overwrite"
+            elif isinstance(t, ast.UnaryOp) and isinstance(t.op, ast.Not) and isinstance(t.operand, ast.Name) and t.operand.id == "overwrite": c = "(negb overwrite)"
+            else: raise U("%s: the mode depends on %s" % (where, src(t)))
+            return "(if %s then %s else %s)" % (c, mode_term(e.body, where), mode_term(e.orelse, where))
+        raise U("%s: file mode %s is not a str constant or a conditional over `overwrite`" % (where, src(e)))
+    for key, cls in classes:
+        k, fd = CF._resolve(cls, "to_hdf5")
+        if fd is None: raise U("%s has no to_hdf5" % cls.__name__)
+        where = "%s.to_hdf5" % k.__name__
+        params = [a.arg for a in fd.args.args]
+        if params != ["self", "filename", "groupname", "overwrite"] or fd.args.vararg or fd.args.kwarg or fd.args.kwonlyargs:
+            raise U("%s: parameters %s" % (where, params))
+        calls = [n for n in ast.walk(fd) if isinstance(n, ast.Call) and src(n.func) in ("h5py.File", "File", "h5py.File.__call__")]
+        if len(calls) != 1: raise U("%s: expected exactly one h5py.File(...) call, found %d" % (where, len(calls)))
+        call = calls[0]
+        kw = {x.arg: x.value for x in call.keywords}
+        if None in kw or set(kw) - {"name", "mode"} or len(call.args) > 2 or (len(call.args) == 2 and "mode" in kw):
+            raise U("%s: %s" % (where, src(call)))
+        name = call.args[0] if call.args else kw.get("name")
+        if name is None or src(name) != "filename": raise U("%s: the file opened is not `filename`: %s" % (where, src(call)))
+        mode = call.args[1] if len(call.args) == 2 else kw.get("mode", ast.Constant(value="r"))
+        term = mode_term(mode, where)
+        # every simple statement that mentions h5file, with the test of the enclosing `if` (None at top level)
+        found = []
+        def visit(body, guard):
+            for st in body:
+                if isinstance(st, ast.If):
+                    visit(st.body, src(st.test)); visit(st.orelse, guard)
+                elif isinstance(st, (ast.For, ast.While, ast.With, ast.Try, ast.FunctionDef, ast.ClassDef)):
+                    if "h5file" in src(st) or "h5py.File(" in src(st): raise U("%s: h5file used inside a compound statement: %s" % (where, src(st)[:80]))
+                elif any(isinstance(n, ast.Name) and n.id == "h5file" for n in ast.walk(st)):
+                    found.append((src(st), guard))
+        visit(fd.body, None)
+        by_name = "isinstance(filename, (str, Path))"; by_handle = "isinstance(filename, h5py.File)"
+        want = [("h5file = None", None), ("h5file = " + src(call), by_name), ("h5file = filename", by_handle),
+                ("h5py_File_write_dict(h5file, groupname, data, overwrite)", None), ("h5file.close()", by_name)]
+        if found != want:
+            raise U("%s: the statements that use h5file are %s" % (where, [f for f in found if f not in want] or found))
+        rows.append('("%s"%%string, fun overwrite : bool => %s)' % (key, term))
+        texts.append("%s: %s" % (where, src(call)))
+    uniq = sorted(set(texts))
+    defs.append(P.definition("k_h5_open_mode", [], "list (String.string * (bool -> String.string))", "[" + ";\n   ".join(rows) + "]",
+                             "to_hdf5 of the %d persistable classes, file given by NAME (str / Path): %s   [a handle is used as it is: h5file = filename]"
+                             % (len(rows), " | ".join(uniq)[:600])))
+    return len(rows)
+
+
 def translate(repo, gen_dir, classes):
     """classes: [(harness key, class object)] of the HDF5-persistable classes (imported from `repo` by the harness)"""
     defs = []
@@ -537,8 +606,9 @@ def translate(repo, gen_dir, classes):
     gmap_api_kernels(repo, defs)
     ncol = colsel_kernels(repo, defs)
     vm_kernels(repo, defs)
+    nopen = open_kernels(classes, defs)
     text = (P.HEADER % "harness/translate/c16_kernel.py") + \
         "From Coq Require Import ZArith Bool List String PrimFloat.\nImport ListNotations.\nLocal Open Scope Z_scope.\n\n" + "\n".join(defs)
     path = os.path.join(gen_dir, "C16_Kernel.v")
     P.write_if_changed(path, text)
-    return {"file": "Gen/C16_Kernel.v", "definitions": len(defs), "slash_sites": nsites, "column_selections": ncol, "sha256": hashlib.sha256(text.encode()).hexdigest()[:16]}
+    return {"file": "Gen/C16_Kernel.v", "definitions": len(defs), "slash_sites": nsites, "column_selections": ncol, "open_modes": nopen, "sha256": hashlib.sha256(text.encode()).hexdigest()[:16]}
